@@ -2201,6 +2201,9 @@ func (m *Machine) processSubscriptions(t *Transition) {
 		m.subs.ProcessWhenTime(t.ClockBefore()),
 		m.subs.ProcessWhenQueue(m.queueTick),
 		m.subs.ProcessWhenQuery(),
+		// WhenArgs are matched by handler calls, which a transition without any
+		// change doesnt make
+		m.subs.ProcessWhenArgsCtx(),
 	)
 
 	// unlock
